@@ -611,6 +611,8 @@ fn gen_keyforge(thorough: bool, rng: &mut Rng) -> Result<(), String> {
                 ("key_without_master_secret_proof_names_it", vec![], None, false),
                 // S = 0 with arbitrary Z = 2 and every R = 3: all recomputed commitments vanish, the "proof" is computable by anybody
                 ("s_zero_forgery", vec![], None, false),
+                // the proof names the last attribute twice and leaves the first (replaced, not a power of S) out: as many entries as generators
+                ("repeated_name_stands_in_for_uncovered", vec![first.clone()], Some((first.clone(), "n-1")), false),
             ];
             for (variant, uncovered, ovr, accept) in variants {
                 if uncovered.len() == 2 && uncovered[0] == uncovered[1] { continue; }
@@ -624,6 +626,7 @@ fn gen_keyforge(thorough: bool, rng: &mut Rng) -> Result<(), String> {
                         if on == a { o["r_override"] = json!(dec_add(&n_dec, if *kind == "n-1" { -1 } else { -4 })); }
                     }
                     if variant == "s_zero_forgery" { o["r_override"] = json!("3"); }
+                    if variant == "repeated_name_stands_in_for_uncovered" && *a == second && second != first { o["covered_again_xr_tilde"] = json!(dec_of_hex(&rng.hex_bits(2200))); }
                     o
                 }).collect();
                 let mut inj = json!({"backend": backend_str(), "n": pkj["n"], "s": pkj["s"], "xz": dec_of_hex(&rng.hex_bits(2000)), "xz_tilde": dec_of_hex(&rng.hex_bits(2200)),
